@@ -1,0 +1,34 @@
+//go:build verif
+
+package list
+
+// Contracts for contract-based deductive verification (read by /verif/govc). Comment-only.
+
+/*@
+-- ------------------------------------------------------------------ the dynamic list: selection and scroll position (C19)
+-- After any selection change the selected item is not above the first item of the viewport; if it IS that first item
+-- the viewport starts at the item's first row (no rows of it are scrolled off); if it is further down, the next Draw
+-- is told to bring it into view. (Draw itself -- a loop over user-built widgets -- is not under contract.)
+-- the item builder is the application's: ASSUMED not to touch the list it is building for
+purefield Dynamic.Builder
+pred SelInView(d *Dynamic) = d.scroll.top <= d.cursor && (d.scroll.top == d.cursor ==> d.scroll.offset == 0) && (d.scroll.top < d.cursor ==> d.scroll.wantsCursor)
+
+func (d *Dynamic) ensureScroll()
+  ensures C19_sel: SelInView(d)
+  ensures C19_keep: d.cursor == old(d.cursor)
+
+func (d *Dynamic) SetCursor(c uint)
+  ensures C19_sel: SelInView(d) && d.cursor == c
+
+func (d *Dynamic) NextItem() vxfw.Command
+  requires builder: ref(d.Builder) != 0
+  requires room: d.cursor < 4294967295
+  ensures C19_sel: result != nil ==> (SelInView(d) && d.cursor == old(d.cursor) + 1)
+  ensures C19_end: result == nil ==> d.cursor == old(d.cursor)
+
+func (d *Dynamic) PrevItem() vxfw.Command
+  requires builder: ref(d.Builder) != 0
+  ensures C19_sel: result != nil ==> (SelInView(d) && d.cursor == old(d.cursor) - 1)
+  ensures C19_end: result == nil ==> d.cursor == old(d.cursor)
+  ensures C19_first: old(d.cursor) == 0 ==> result == nil
+@*/
